@@ -20,7 +20,7 @@ ANCHORS = ["decaylanguage.dec.dec:DecFileParser._add_charge_conjugate_decays", "
            "decaylanguage.dec.dec:DecFileParser._add_decays_to_be_copied"]
 WORKERS = {"quick": 4, "thorough": 16}
 WTESTS = {"groups": ['parse'], "tests": ['tests/dec'], "counts": ["C01.parse."]}
-REQUIRED = {"orientation:forward": 20, "orientation:reverse": 20, "alias-alias-pair": 20, "self-pair": 5, "unknown-daughter": 20, "self-conjugate-daughter": 20,
+REQUIRED = {"refused-then-registered-then-parsed": 5, "orientation:forward": 20, "orientation:reverse": 20, "alias-alias-pair": 20, "self-pair": 5, "unknown-daughter": 20, "self-conjugate-daughter": 20,
             "aliased-daughter": 20, "source-from-CopyDecay": 10, "cdecay-without-source": 10, "decay+cdecay-one-name": 10, "decay+cdecay>=2-names": 5,
             "chargeconj-statements:1-2": 10, "chargeconj-statements>=6": 5, "switch-off:>3-tables+applicable": 10, "cdecay-before-source-block": 10,
             "chargeconj-after-use": 10, "tables>=4": 20, "photos-and-params-in-source": 20, "corpus-cdecay-statements": 100, "two-aliases-of-a-self-conjugate-particle": 5, "two-copies-of-one-source": 5, "switch:off-then-on-same-instance": 20, "switch:on-queried-then-off-same-instance": 20, "decay-block-empty+cdecay-same-name": 3, "real-name-pair": 20, "alias-paired-with-plain-name": 10}
@@ -316,12 +316,59 @@ def check(ctx, text, stmts, wit, workload, um=(), files=None):
     return exp_on
 
 
+def refused_then_registered(ctx, stmts):
+    """A line uses a model the library does not know: parse() refuses; the model is registered on the SAME object; parse() again:
+    the conjugated tables are those of the rule, as from a fresh object that had the model registered first."""
+    import copy  # noqa: PLC0415
+    import warnings  # noqa: PLC0415
+
+    from decaylanguage import DecFileParser  # noqa: PLC0415
+
+    st = copy.deepcopy(stmts)
+    free = [ln for x in st if x["k"] == "Decay" for ln in x["lines"] if not ln["params"] and ln["model"]]
+    if not free:
+        return
+    name = ctx.rng.choice(["MYOWNMODEL", "UGEN2", "LOCAL_SHAPE"])
+    ctx.rng.choice(free)["model"] = name
+    text = L.render(st)
+    exp_on = L.expected(st, include_cc=True)
+    exp_off = L.expected(st, include_cc=False)
+    cd = [x for x in exp_on["derived"] if x not in exp_off["derived"]]
+    if not cd:
+        return
+    wit = {"kind": "refused-then-registered", "text": text, "model": name}
+    ctx.case({"text": text, "history": "refused-registered-parsed"}, nontrivial=True, workload="gen")
+
+    def history():
+        p = DecFileParser.from_string(text)
+        with warnings.catch_warnings():
+            warnings.simplefilter("ignore")
+            try:
+                p.parse()
+            except Exception:  # noqa: BLE001  - the refusal is the library's documented answer to an unknown model
+                pass
+            else:
+                return None
+            p.load_additional_decay_models(name)
+            p.parse()
+        return snapshot.compare_tables(p, exp_on)
+
+    ok, bad = ctx.guard("parse-after-refusal-and-registration", wit, history)
+    if ok and bad is not None:
+        ctx.hit("refused-then-registered-then-parsed")
+        ctx.mon("C03.tables_match_conjugation_rule")
+        for mech, msg in bad:
+            ctx.violate(mech + ":cc-on-after-refused-parse", msg, wit)
+
+
 def run(ctx):
     for i in range(ctx.pick(120, 1500)):
         stmts, hits = gen_file(ctx)
         text = L.render(stmts)
         exp = check(ctx, text, stmts, {"kind": "generated", "text": text}, "gen")
         classify(ctx, stmts, hits, exp)
+        if i % 4 == 0:
+            refused_then_registered(ctx, stmts)
         if i < 2:
             ctx.sample({"text": text, "conjugated_tables": {m: [list(map(str, L.line_tuple(x))) for x in v] for m, v in exp["derived"].items()}})
         if len(ctx.violations) >= ctx.max_violations:
@@ -344,7 +391,12 @@ def run(ctx):
 
 
 def replay(ctx, w):
-    if w["kind"] == "generated":
+    if w["kind"] == "refused-then-registered":
+        stmts = L.read(w["text"], L.published_models(), (w["model"],))
+        for x in stmts:      # the replay takes the text as it is
+            pass
+        _replay_refused(ctx, w, stmts)
+    elif w["kind"] == "generated":
         stmts = L.read(w["text"], L.published_models())
         check(ctx, w["text"], stmts, {"kind": "generated", "text": w["text"]}, "replay")
     else:
@@ -352,3 +404,24 @@ def replay(ctx, w):
         with open(f, encoding="utf-8") as fh:
             stmts = L.read(fh.read() + "\n", L.published_models(), tuple(w["user_models"]))
         check(ctx, None, stmts, w, "replay", tuple(w["user_models"]), files=[f])
+
+
+def _replay_refused(ctx, w, stmts):
+    import warnings  # noqa: PLC0415
+
+    from decaylanguage import DecFileParser  # noqa: PLC0415
+
+    exp_on = L.expected(stmts, include_cc=True)
+    ctx.case({"text": w["text"], "history": "refused-registered-parsed"}, nontrivial=True, workload="replay")
+    p = DecFileParser.from_string(w["text"])
+    with warnings.catch_warnings():
+        warnings.simplefilter("ignore")
+        try:
+            p.parse()
+        except Exception:  # noqa: BLE001
+            pass
+        p.load_additional_decay_models(w["model"])
+        p.parse()
+    ctx.mon("C03.tables_match_conjugation_rule")
+    for mech, msg in snapshot.compare_tables(p, exp_on):
+        ctx.violate(mech + ":cc-on-after-refused-parse", msg, w)
